@@ -445,11 +445,7 @@ class AsyncPettingZooVecEnv(PettingZooVecEnv):
             # the remaining workers down instead of leaving them alive.
             pass
 
-        if terminate:
-            for process in self.processes:
-                if process.is_alive():
-                    process.terminate()
-        else:
+        if not terminate:
             for pipe in self.parent_pipes:
                 if (pipe is not None) and (not pipe.closed):
                     try:
@@ -462,9 +458,18 @@ class AsyncPettingZooVecEnv(PettingZooVecEnv):
             for pipe in self.parent_pipes:
                 if (pipe is not None) and (not pipe.closed):
                     try:
-                        pipe.recv()
+                        if timeout is None or pipe.poll(timeout):
+                            pipe.recv()
+                        else:
+                            # Still busy (e.g. with a call that timed out earlier)
+                            terminate = True
                     except (EOFError, OSError):
                         pass
+
+        if terminate:
+            for process in self.processes:
+                if process.is_alive():
+                    process.terminate()
 
         for pipe in self.parent_pipes:
             if pipe is not None:
